@@ -24,7 +24,7 @@ RULE = ("cases: histories of 1-6 add() calls on configurators over 3-6 boolean i
 BUDGET = {"quick": (12, 360, 90), "thorough": (16, 1500, 1200)}
 PYTEST = True     # thorough tier also runs the repository's own tests under these monitors
 MANDATORY = ["judged:add==direct:state", "judged:add==direct:default_prios", "judged:add==direct:polyhedron", "judged:add==direct:select",
-             "judged:id-kept", "judged:earlier-unchanged", "judged:refused", "judged:refusal-leaves-unchanged", "contract:StingyConfigurator.add", "count:branching-additions", "count:item-additions"]
+             "judged:id-kept", "judged:earlier-unchanged", "judged:refused", "judged:refusal-leaves-unchanged", "contract:StingyConfigurator.add", "count:branching-additions", "count:item-additions", "count:catalogue(>=250 top-level ids)"]
 
 
 def add_snap(args, kwargs):
@@ -66,6 +66,22 @@ def gen_case(rng, tier, ctx, i):
     def idgen():
         cnt[0] += 1
         return "N%d" % cnt[0]
+    if rng.random() < 0.04:
+        # a catalogue: a few rules and some hundred top-level items (nothing in the statement bounds the number of top-level ids)
+        n = rng.choice([250, 255, 256, 257, 258, 300, 340])
+        wide = [{"k": "var", "id": "w%03d" % k, "b": [0, 1]} for k in range(n)]
+        base["args"] = base["args"][:2] + wide
+        adds = []
+        for _ in range(rng.randint(1, 3)):
+            if rng.random() < 0.6:
+                rule = confgen.gen_rule(rng, items, idgen)
+                if rule["k"] != "Not":
+                    rule["id"] = rng.choice(wide)["id"] if rng.random() < 0.7 or not base["args"][0].get("id") else base["args"][0]["id"]
+                    rule["_refuse"] = True
+                    adds.append(rule)
+                    continue
+            adds.append(confgen.gen_rule(rng, items, idgen, p_id=0.6))
+        return {"base": base, "adds": adds, "parents": list(range(len(adds))), "seed": rng.getrandbits(32), "catalogue": n}
     adds = []
     for _ in range(rng.randint(1, 6)):
         r = rng.random()
@@ -130,6 +146,8 @@ def run_case(case, ctx):
     live = [(c0, digest.state(c0), [])]
     history = []
     naccepted = 0
+    if case.get("catalogue"):
+        ctx.count("count:catalogue(>=250 top-level ids)")
     parents = case.get("parents") or list(range(len(case["adds"])))
     for step, rule in enumerate(case["adds"]):
         clean = recipes.strip(rule)
